@@ -581,8 +581,10 @@ pub fn try_(ops: Ops, pattern: bool, env: &mut Uiua) -> UiuaResult {
             ) {
                 return Err(err);
             }
-            if takes_error && handler_sig.outputs() < try_sig.outputs() {
-                env.pop("error")?;
+            // The error value that was given to the failed handler is still beneath the
+            // try arguments it did not take, unless the handler took it as an argument
+            if takes_error && f_sig.args() <= try_args {
+                _ = env.remove_n(1, try_args - f_sig.args() + 1)?;
             }
             takes_error = any_takes_error
                 && handler_sig.args() + try_sig.outputs().saturating_sub(handler_sig.outputs())
